@@ -296,6 +296,10 @@ class DeribitNV:
         from .deribit import DeribitWorld, sym_book, _dec
 
         self.ctx, self.p = ctx, p
+        if p.get("neighbour_market"):
+            from . import neighbours
+
+            neighbours.deribit()
         self.mark, self.mark2 = 0.0287, 0.0161
         ins = sym_book(ctx, self.NAME, p.get("levels", 2), p.get("levels", 2), mark=self.mark)
         ins2 = sym_book(ctx, self.NAME2, 1, 1, mark=self.mark2, prefix="i2_")
@@ -390,6 +394,10 @@ class Gmx1NV:
         from ..props.c17 import v1_world, P30
 
         self.ctx, self.p = ctx, p
+        if p.get("neighbour_market"):
+            from . import neighbours
+
+            neighbours.gmx1()
         self.m, self.broker, self.toks, self.row, self.actions = v1_world(ctx, p["shape"], p["token"])
         self.broker.quote_token = USD
         self.tok = self.toks[p["token"]]
@@ -465,6 +473,10 @@ class Gmx2NV:
         from ..props.c17 import v2_world, _q
 
         self.ctx, self.p = ctx, p
+        if p.get("neighbour_market"):
+            from . import neighbours
+
+            neighbours.gmx2()
         self._q = _q
         self.pool_imp = ctx.flt("impact_pool", 0, 1000)
         self.m, self.broker, self.weth, self.usdc, self.row, self.actions = v2_world(ctx, p["shape"], self.pool_imp)
@@ -738,6 +750,10 @@ class UniNV:
         from ..props.c09 import Side, _range
 
         self.ctx, self.p = ctx, p
+        if p.get("neighbour_market"):
+            from . import neighbours
+
+            neighbours.uniswap()
         dq, db = p.get("dq", 6), p.get("db", 18)
         vq = ctx.int_("vol_quote_wei", 0, 10 ** (dq + 9))
         vb = ctx.int_("vol_base_wei", 0, 10 ** (db + 6))
